@@ -13,6 +13,7 @@
 //   selfassign <s>        g = g  (operator= with the same object on both sides)
 //   make custom <s> <dims> <outs> <depth> <type> <file> [aw: i..] [ll: i..]
 //                         Global grid with rule_customtabulated, the table is read from <workdir>/<file> (same spelling as harness/iodrv.cpp)
+//   loadoff <s> <fn> <off>   as "load", the value of output j is fn(x) of output j + off (a sub-range copy is loaded with the values of its own range)
 //   xdump <s> custom      white-box: the CustomTabulated table held by the Global grid in slot <s>:
 //                           o custlev n  num_levels num_nodes.. precision..   /  o custtab n  weights and nodes of every level  /  o custdesc n bytes
 //
@@ -47,7 +48,7 @@ static bool run_extra(const std::string &line) {
     if (k.t.empty()) return false;
     std::string cmd = k.t[0];
     bool mkcustom = (cmd == "make" && k.t.size() > 1 && k.t[1] == "custom");
-    if (cmd != "xdump" && cmd != "copyx" && cmd != "selfassign" && !mkcustom) return false;
+    if (cmd != "xdump" && cmd != "copyx" && cmd != "selfassign" && cmd != "loadoff" && !mkcustom) return false;
     k.next();
     printf("c %s\n", line.c_str()); fflush(stdout);
     try {
@@ -69,6 +70,12 @@ static bool run_extra(const std::string &line) {
                     for (unsigned char ch : c.description) desc.push_back((double) ch); }
                 pd("custlev", lev); pd("custtab", tab); pd("custdesc", desc);
             } else throw std::runtime_error("driver: unknown xdump " + what);
+        } else if (cmd == "loadoff") {
+            Slot &s = S(k.next()); std::string fn = k.next(); int off = k.ni(); TasmanianSparseGrid &g = s.g; int d = g.getNumDimensions(), outs = g.getNumOutputs();
+            std::vector<double> pts = (g.getNumNeeded() > 0) ? g.getNeededPoints() : g.getLoadedPoints(); size_t n = (d > 0) ? pts.size() / (size_t) d : 0;
+            std::vector<double> v(n * (size_t) outs);
+            for (size_t p = 0; p < n; p++) for (int j = 0; j < outs; j++) v[p * outs + j] = fn_value(fn, pts.data() + p * d, d, j + off);
+            g.loadNeededValues(v);
         } else if (mkcustom) {
             k.next(); Slot &s = S(k.next()); int d = k.ni(), outs = k.ni(), depth = k.ni(); TypeDepth ty = DEPTHS.at(k.next()); std::string file = workdir + "/" + k.next(); auto m = k.keyed();
             s.g.makeGlobalGrid(d, outs, depth, ty, rule_customtabulated, toInts(m["aw:"]), 0.0, 0.0, file.c_str(), toInts(m["ll:"])); s.cand.clear();
